@@ -110,6 +110,11 @@ func setVal(f reflect.Value, k int, depth int) bool {
 			return true // nil name
 		}
 		n := enc.Name{}
+		if k%11 == 7 { // many empty components: 2 bytes each, the densest a name can be
+			for j := 0; j < 4+k%5; j++ {
+				n = append(n, enc.Component{Typ: 8, Val: []byte{}})
+			}
+		}
 		for j := 0; j <= k%3; j++ {
 			n = append(n, enc.Component{Typ: 8, Val: make([]byte, blen(k+j))})
 		}
@@ -371,9 +376,9 @@ func buildSeeds(nVar int, onlyOK bool) []seed {
 		if m.encode == nil {
 			continue
 		}
-		for k := 0; k < nVar; k++ {
+		for k := -1; k < nVar; k++ { // k = -1: the zero value of the model (every field absent)
 			v := m.mk()
-			if !fill(reflect.ValueOf(v).Elem(), k, 0) {
+			if k >= 0 && !fill(reflect.ValueOf(v).Elem(), k, 0) {
 				continue
 			}
 			var wire []byte
